@@ -5,7 +5,7 @@ through handles, drop_measurement / Measurement.remove_all, remove_all.  Oracle:
 matches, the survivors equal the model's survivors as a list (present, unmodified, original order) in all four configurations,
 a removal that matches nothing leaves contents and CSV bytes unchanged, and every later read still agrees with the model.
 """
-from .. import histcheck, qast
+from .. import histcheck, lockstep, qast
 
 ID = "C02"
 LEVEL = "exploration"
@@ -37,8 +37,11 @@ def classify(ls, ops):
 
 
 HOOKS = (hook,)
-run_shard = histcheck.make_run_shard("remove", classify, HOOKS)
-replay = histcheck.make_replay(HOOKS)
+# a fifth configuration with a non-default text encoding: a rewrite stages the surviving rows in a second file, which has to be
+# written and read back under the same storage options as the database itself (utf-16 can encode every generated string)
+CONFIGS5 = lockstep.CONFIGS + [("csv", True, {"encoding": "utf-16"}, ":utf16")]
+run_shard = histcheck.make_run_shard("remove", classify, HOOKS, configs=CONFIGS5)
+replay = histcheck.make_replay(HOOKS, configs=CONFIGS5)
 
 
 def shards(tier):
